@@ -168,6 +168,41 @@ def run_fields(key):
     return ok(outcome=f'{K},{F},{T},{kind}', evals=n, states=n, transitions=n * F)
 
 
+def run_integer_masks(key):
+    """0/1 masks in small integer dtypes with more than 127 / 255 ones per row."""
+    pa = _pa()
+    K, F, T, dt, seed = key['K'], key['F'], key['T'], key['dtype'], key['seed']
+    r = A.rng(seed, 'c15int', K, F, T)
+    ref = np.zeros((K, F, T), dtype=np.dtype(dt))
+    owner = r.integers(0, K, size=(F, T))
+    for k in range(K):
+        ref[k] = (owner == k)
+        ref[k, :, : T // 3] = np.maximum(ref[k, :, : T // 3],
+                                         (r.integers(0, 3, size=(F, T // 3)) == 0).astype(ref.dtype))   # overlap
+    for f in range(F):
+        if len({ref[k, f].tobytes() for k in range(K)}) != K:
+            return trivial('reference rows not distinct')
+    perms = list(itertools.permutations(range(K)))
+    n = 0
+    for fld in itertools.product(range(len(perms)), repeat=F):
+        mapping_in = np.array([perms[p] for p in fld]).T
+        mask = R.apply_mapping_loop(ref, mapping_in)
+        for metric in ('cos', 'euclidean', 'multiply'):
+            if metric == 'multiply':
+                continue
+            for alg in ('greedy', 'optimal'):
+                al = pa.OraclePermutationAlignment(similarity_metric=metric, algorithm=alg)
+                try:
+                    out = al(mask, ref)
+                except Exception as e:  # noqa
+                    return viol(f'Oracle({metric},{alg}) raised {e!r} on {dt} masks with T={T}')
+                if not np.array_equal(out, ref):
+                    return viol(f'Oracle({metric},{alg}) does not return the {dt} reference (T={T}) for the field '
+                                f'{mapping_in.T.tolist()}')
+                n += 1
+    return ok(outcome=f'{K},{F},{T},{dt}', evals=n, states=n, transitions=n * F)
+
+
 def run_global(key):
     pa = _pa()
     K, F, T, seed = key['K'], key['F'], key['T'], key['seed']
@@ -225,6 +260,15 @@ def subchecks(tier, seed):
             yield (4, 5, 3, kind, 'two_bins', seed)
     subs.append(Sub('permutation_fields', ('K', 'F', 'T', 'kind', 'fields', 'seed'), field_cases, run_fields,
                     bound=dict(fields='all K!^F for K,F<=3; K=4,F=5: <=2 non-identity bins')))
+
+    def int_cases():
+        for K in (2, 3):
+            for T in (100, 200, 400, 700):
+                for dt in ('int8', 'uint8', 'int16', 'bool', 'float32'):
+                    if dt == 'bool':
+                        continue
+                    yield (K, 3, T, dt, seed)
+    subs.append(Sub('integer_masks_long', ('K', 'F', 'T', 'dtype', 'seed'), int_cases, run_integer_masks))
 
     def global_cases():
         for K in (2, 3, 4):
